@@ -2,7 +2,7 @@
    AGV events fire exactly when due by the clock invariant of C12). *)
 From Coq Require Import List ZArith Bool.
 From JSL Require Import Base.Res Base.ListX SM.Types SM.Util SM.Handler SM.Step SM.Inv
-  SMP.Post SMP.PostApply SMP.Offers SMP.Clock SMP.ClockMain SMP.WF SMP.Reflect SMP.Feasible SMP.Unique SM.Middleware SMP.StepInv SMP.LiftSide SMP.OutputDone SMP.LiftProv SMP.ProvBatch SM.ExampleShift SMP.Durations SMP.Travel.
+  SMP.Post SMP.PostApply SMP.Offers SMP.Clock SMP.ClockMain SMP.WF SMP.Reflect SMP.Feasible SMP.Unique SM.Middleware SMP.StepInv SMP.LiftSide SMP.OutputDone SMP.LiftProv SMP.ProvBatch SMP.Deliver SM.ExampleShift SMP.Durations SMP.Travel.
 Import ListNotations.
 
 (* dispatch: the AGV reaches the pickup point exactly travel(where it stands -> where the job lies)
@@ -224,3 +224,27 @@ Theorem C07_time_dependencies_wellformed_micro_states_every_instance :
     forall tr y, In (tr, y) lg -> depi_b i y = true.
 Proof. intros sigma i fuel x0 joker0 ta r m a r' m' lg Hnn. apply run_micro_depi; auto. Qed.
 Print Assumptions C07_time_dependencies_wellformed_micro_states_every_instance.
+
+(* "a job is delivered to the machine of its next operation" (clause pre_ok_b, SMP/Deliver.v): in every state and micro-state
+   of every run of every instance, a job lying in the pre-buffer of a machine has its first not-done operation on that
+   machine - an AGV's route ends at the machine of its claim's first idle operation (set by the dispatch, kept because a
+   claimed job cannot start a setup), the delivered job is the AGV's claim and is not in process *)
+Theorem C07_delivered_to_the_machine_of_the_next_operation_every_instance :
+  forall (sigma : oracle) (i : inst) (fuel : nat) (x0 : state) (joker0 : Z) (ta : bool) (r : result) (m : mw),
+    inst_nonneg_b i = true ->
+    clock_b x0 = true -> wfs_b i x0 = true -> fresh2_b i x0 = true -> nodep_b x0 = true ->
+    idle_unclaimed_b x0 = true -> pre_ok_b x0 = true ->
+    reach sigma i fuel x0 joker0 ta r m -> pre_ok_b (r_x r) = true.
+Proof. intros sigma i fuel x0 joker0 ta r m Hnn. apply run_pre_ok; auto. Qed.
+Print Assumptions C07_delivered_to_the_machine_of_the_next_operation_every_instance.
+
+Theorem C07_delivered_to_the_machine_of_the_next_operation_micro_states_every_instance :
+  forall (sigma : oracle) (i : inst) (fuel : nat) (x0 : state) (joker0 : Z) (ta : bool) (r : result) (m : mw)
+         (a : Z) (r' : result) (m' : mw) (lg : mlog),
+    inst_nonneg_b i = true ->
+    clock_b x0 = true -> wfs_b i x0 = true -> fresh2_b i x0 = true -> nodep_b x0 = true ->
+    idle_unclaimed_b x0 = true -> pre_ok_b x0 = true ->
+    reach sigma i fuel x0 joker0 ta r m -> mw_step sigma i fuel r m a = MOk r' m' lg ->
+    forall tr y, In (tr, y) lg -> pre_ok_b y = true.
+Proof. intros sigma i fuel x0 joker0 ta r m a r' m' lg Hnn. apply run_micro_pre_ok; auto. Qed.
+Print Assumptions C07_delivered_to_the_machine_of_the_next_operation_micro_states_every_instance.
